@@ -416,6 +416,54 @@ pub fn run_c03(tier: Tier) -> Report {
     }
     r.run("residual-clip", &cases);
 
+    // ---- inter-block coefficient events over the whole zig-zag range (an inter block starts at
+    // position 0 and may use position 63): single events, two- and three-event chains
+    let mut cases = vec![];
+    {
+        let reference = Pic { hdr: shdr(16, 16, 0, 0, 4, 0), mbs: vec![Mb::intra_flat(120)] };
+        let mut push = |evs: Vec<Ev>, v1: bool| {
+            let mut blocks: [Blk; 6] = Default::default();
+            blocks[0].ev = evs.clone();
+            blocks[5].ev = evs;
+            let version = v1 as u8;
+            let mut rf = reference.clone();
+            if let Hdr::S(h) = &mut rf.hdr {
+                h.version = version;
+            }
+            cases.push(vec![rf, Pic { hdr: shdr(16, 16, 1, 1, 4, version), mbs: vec![Mb::Coded { kind: Kind::Inter, dquant: 0, mvd: vec![(0, 0)], blocks }] }]);
+        };
+        for run in 0..=63u8 {
+            for lv in [2i16, -3] {
+                push(vec![ev_auto(true, run, lv, false)], false);
+                push(vec![ev_auto(true, run, lv, true)], true);
+            }
+        }
+        let step = if tier.thorough() { 1 } else { 4 };
+        for r1 in 0..=62usize {
+            for r2 in 0..=62usize {
+                if r1 + r2 + 2 > 64 {
+                    continue;
+                }
+                // always keep the chains that end on the last two positions
+                let ends_late = r1 + r2 + 2 >= 63;
+                if !ends_late && (r1 % step != 0 || r2 % step != 0) {
+                    continue;
+                }
+                push(vec![ev_auto(false, r1 as u8, 3, false), ev_auto(true, r2 as u8, -2, false)], false);
+            }
+        }
+        for p1 in [0usize, 1, 30, 60, 61] {
+            for p2 in [p1 + 1, 61, 62] {
+                if p2 <= p1 || p2 >= 63 {
+                    continue;
+                }
+                push(vec![ev_auto(false, p1 as u8, 2, true), ev_auto(false, (p2 - p1 - 1) as u8, -1, true), ev_auto(true, (63 - p2 - 1) as u8, 4, true)], true);
+            }
+        }
+    }
+    r.run("inter-block-events", &cases);
+    rep.add_nontrivial(cases.len() as u64);
+
     // ---- large pictures: more than 255 macroblocks, more than 255 macroblocks per row
     let mut cases = vec![];
     let mut big: Vec<(u16, u16)> = vec![(352, 288), (4112, 16)];
